@@ -17,31 +17,6 @@ is measured by the T-real harness, not proved.
 namespace Netpoll.Props.C14
 open Netpoll.Dial
 
-/-- a script used by the non-vacuity examples: the first address is refused after a writable
-wake-up (SO_ERROR = ECONNREFUSED), the second gets EADDRNOTAVAIL once, a spurious wake-up
-(SO_ERROR = 0, getpeername fails), writable + hang-up at once, and finally connects. -/
-def exRefused : AddrScript :=
-  { tcp := { att := fun _ => { fd := 7, wakes := [{ evs := [.writable], soerr := ECONNREFUSED }] } } }
-def exRetryThenOk : AddrScript :=
-  { tcp := { att := fun i =>
-      if i = 0 then { fd := 8, e0 := EADDRNOTAVAIL }
-      else { fd := 9, wakes := [{ evs := [.writable], soerr := 0, peerOk := false },
-                                { evs := [.writable, .writable], soerr := EINPROGRESS },
-                                { evs := [], soerr := 0, peerOk := true }],
-             late := [.hup] } } }
-/-- the deadline fires while the connect is pending; a writable event is still in flight -/
-def exTimeout : AddrScript :=
-  { tcp := { att := fun _ => { fd := 5, wakes := [{ evs := [] }, { evs := [.ctxDone .deadline, .writable], pick := .c }],
-                               late := [.writable, .hup] } } }
-
-theorem fdsOk_ex : FdsOk [exRefused, exRetryThenOk, exTimeout] := by
-  intro a ha i
-  simp only [List.mem_cons, List.not_mem_nil, or_false] at ha
-  rcases ha with rfl | rfl | rfl
-  · simp [exRefused]
-  · simp only [exRetryThenOk]; split <;> decide
-  · simp [exTimeout]
-
 /-- **C14_xor.** A dial that returns gives exactly one of a connection / a non-nil error
 (TCP path `DialConnection → dialer.dialTCP → DialTCP`). -/
 theorem C14_xor (as : List AddrScript) :
